@@ -60,6 +60,11 @@ const (
 	// end-of-height marker for the last synced block; the first height it logs is never replayed after a crash.
 	idSyncedStart = "C15-no-marker-after-sync"
 
+	// idSecondMarker: a head that is empty because it has just been rotated gets a second #ENDHEIGHT 0 at the next
+	// start; in the chain's first height the end-height search then returns a reader behind it and the records of the
+	// unfinished height in the rolled file are not replayed.
+	idSecondMarker = "C15-second-initial-marker"
+
 	// refMaxPayload is the documented framing limit: 1 MB of consensus message plus 24 bytes of time stamp.
 	refMaxPayload = 1048576 + 24
 
@@ -271,16 +276,37 @@ func (s *sim) open() {
 	w.SetFlushInterval(time.Hour)
 	s.armTick, s.tickFired = 0, nil
 	w.VerifC15AfterEachGroupWrite(s.afterGroupWrite)
-	// BaseWAL.OnStart: an empty head gets EndHeightMessage{0}, written with WriteSync
-	h := s.head()
-	if len(h.segs) == 0 {
-		h.segs = append(h.segs, seg{r: &rec{seq: s.nextSeq, msg: consensus.EndHeightMessage{Height: 0}, synced: true, kind: "endheight0"}})
-		s.nextSeq++
-	}
 	if err := w.Start(); err != nil {
 		s.fail("WAL does not start: %v", err)
 	}
 	s.wal = w
+	// BaseWAL.OnStart gives a log without records its first marker, EndHeightMessage{0}, written with WriteSync (a fresh
+	// log must have it: it is what the first height is replayed from). Whether an empty HEAD behind rolled files that
+	// hold records gets one too is the implementation's business: the model takes what it finds.
+	h := s.head()
+	if len(h.segs) == 0 {
+		b := s.readFile("")
+		groupEmpty := true
+		for _, f := range s.files {
+			if len(f.segs) > 0 {
+				groupEmpty = false
+			}
+		}
+		switch n, st := parseFrame(b); {
+		case st == frameOK && n == len(b):
+			h.segs = append(h.segs, seg{r: &rec{seq: s.nextSeq, msg: consensus.EndHeightMessage{Height: 0}, synced: true, kind: "endheight0"}})
+			s.nextSeq++
+			if !groupEmpty {
+				s.class("start:marker-0-in-empty-head-behind-records")
+			}
+		case len(b) == 0 && !groupEmpty:
+			s.class("start:empty-head-left-empty")
+		case len(b) == 0:
+			s.fail("(3) a log without any record was started and did not get its initial #ENDHEIGHT 0")
+		default:
+			s.fail("(2) the empty head holds %d bytes that are not one record after Start", len(b))
+		}
+	}
 	s.syncHead()
 	// everything that is in the files when the log is opened is on disk by definition
 	s.ackAll()
@@ -690,9 +716,43 @@ func (s *sim) search(h int64, ignore bool, when string) (found bool, term error,
 	}
 	why := ""
 	ok := false
+	// While the chain is in its first height (no marker above 0 on disk) the records behind the FIRST #ENDHEIGHT 0 are
+	// the unfinished height: a reader that starts behind a later copy of the marker (Start may put one into an empty
+	// head) must not skip any of them.
+	firstHeight := h == 0
+	for _, it := range items {
+		if it.r != nil {
+			if eh, isMarker := it.r.endHeight(); isMarker && eh > 0 {
+				firstHeight = false
+			}
+		}
+	}
+	skipsRecords := func(p int) *rec {
+		if !firstHeight || p <= occ[0] {
+			return nil
+		}
+		for _, it := range items[occ[0]+1 : p] {
+			if it.r != nil {
+				if _, isMarker := it.r.endHeight(); !isMarker {
+					return it.r
+				}
+			}
+		}
+		return nil
+	}
 	for _, p := range occ {
 		exp := runFrom(items, p+1)
 		if d := s.matchRun(out, exp); d == "" {
+			if r := skipsRecords(p); r != nil {
+				if lib.IsKnown(idSecondMarker) {
+					lib.ObservedKnown(idSecondMarker)
+					lib.ExcludedByKnown(idSecondMarker)
+				} else {
+					s.fail("%s: (3) the log holds two #ENDHEIGHT 0 markers (the second one written by Start into an empty head behind a rolled file) and the chain is "+
+						"still in its first height; the returned reader starts behind the later marker and skips record #%d (%s) of the unfinished height, "+
+						"which is durably on disk: it will not be replayed [%s]", what, r.seq, r.kind, idSecondMarker)
+				}
+			}
 			ok = true
 			if clean && term != io.EOF {
 				s.fail("%s: (1) the log is intact but the returned reader ended with %v", what, term)
